@@ -21,7 +21,9 @@ RULE = ('seeded CDS curves: valuation dates on and +-1..3 days around the 20 Mar
         'sets from 6M..10Y, spread term structures flat / steep / mildly inverted from 1bp to 5000bp, recoveries 0..0.9, '
         'flat discount rates -1%..8%; for each curve every input CDS is repriced and a second CDS with a different coupon, '
         'notional and direction is valued; both kernels are called directly with the arrays and compared with the Lean '
-        'model. Non-trivial = curve with >= 2 instruments; cases are distinct draws of one PRNG stream.')
+        'model. Re-use: the same CDS objects are used on two valuation dates / with two curves (bootstrap and mark-to-market) '
+        'and every observable is compared, exactly, with freshly constructed identical contracts. Non-trivial = curve with '
+        '>= 2 instruments; cases are distinct draws of one PRNG stream.')
 
 
 def arr(a):
@@ -193,6 +195,8 @@ def run(ctx):
               sample={'value_dt': [20, 3, 2024], 'tenors': ['1Y', '3Y', '5Y'], 'spreads': [0.01, 0.012, 0.015], 'recovery': 0.4})
     ctx.cov['components']['CDSCurve_bootstrap_and_identities']['bootstrap_failed'] = failed
 
+    reuse_oracle(ctx, see, quick)
+
     if drivers_ok and ops:
         try:
             outs = exedriver.run('c09driver', 'C09', ops)
@@ -224,10 +228,148 @@ def run(ctx):
         'regulariser), par spread within 3% + 0.2h of h(1-R) x 360/365 (accrual-on-default and day-count effects)',
         'locality theorems take "curves agree up to the maturity" as hypothesis (interp_local); that the flat-forward '
         'interpolator is local is C02',
+        'history independence of CDS objects (no state carried between valuations) is checked by the re-use oracle on sampled '
+        'date pairs only; the general discipline is C18',
     ]
     return C.finish(ctx, 'proof', 'lake build FinVerif.Props.C09 && lake env lean .cache/audit/Audit_C09.lean',
                     C.TRUSTED_BASE_COMMON + ['hand-written model FinVerif/Model/C09.lean + C09F.lean tied to the Numba kernels by this run'],
                     RULE)
+
+
+def reuse_oracle(ctx, see, quick):
+    """A CDS valuation depends only on (contract terms, valuation date, curve), not on what the contract OBJECT was used
+    for before: the same objects used for two valuation dates / two curves must give exactly what freshly built,
+    identical contracts give.  Exact comparison: both sides run the same arithmetic on the same inputs."""
+    from financepy.utils.date import Date
+    from financepy.market.curves.discount_curve_flat import DiscountCurveFlat
+    from financepy.products.credit.cds import CDS
+    from financepy.products.credit.cds_curve import CDSCurve
+    rng = ctx.rng('reuse')
+    n_cases = 40 if quick else 500
+
+    def observe(cds, vd, curve, rec):
+        """every observable of the property's observe_at list for one contract"""
+        v = cds.value(vd, curve, rec)
+        r = cds.risky_pv01(vd, curve)
+        return {'clean_pv': float(v['clean_pv']), 'dirty_pv': float(v['dirty_pv']),
+                'dirty_rpv01': float(r['dirty_rpv01']), 'clean_rpv01': float(r['clean_rpv01']),
+                'prot_leg_pv': float(cds.prot_leg_pv(vd, curve, rec)),
+                'premium_leg_pv': float(cds.premium_leg_pv(vd, curve)),
+                'par_spread': float(cds.par_spread(vd, curve, rec)),
+                'accrued_interest': float(cds.accrued_interest()), 'accrued_days': float(cds.accrued_days())}
+
+    def same(a, b):
+        return a == b or (a != a and b != b)
+
+    done = skipped = 0
+    for it in range(n_cases):
+        y = rng.randint(2008, 2032)
+        if it % 2:
+            day1 = Date(20, rng.choice([3, 6, 9, 12]), y).add_days(rng.choice([-30, -3, -1, 0, 1, 3, 20]))
+        else:
+            day1 = Date(rng.randint(1, 28), rng.randint(1, 12), y)
+        gap = rng.choice([1, 2, 7, 30, 65, 91, 120, rng.randint(1, 200)])
+        day2 = day1.add_days(gap)
+        order = rng.choice(['forward', 'forward', 'backward'])        # which date the objects see first
+        first, second = (day1, day2) if order == 'forward' else (day2, day1)
+        step_in = rng.choice([day2, day2, day2.add_days(1)])          # spot on the later date, forward starting on the earlier
+        rec = rng.choice([0.2, 0.4, 0.4, 0.6])
+        rate = rng.choice([0.01, 0.03, 0.05])                         # positive rates, 20bp..800bp: outside the known findings
+        base = 10 ** rng.uniform(math.log10(0.002), math.log10(0.08))
+        tenors = rng.choice([['1Y', '3Y', '5Y', '10Y'], ['6M', '2Y', '5Y'], ['5Y'], ['1Y', '2Y', '3Y', '5Y', '7Y']])
+        mats = [step_in.add_tenor(t).next_cds_date() for t in tenors]
+        shape = rng.choice([0.0, 0.1, -0.03])
+        quotes = [base * (1 + shape * k) for k in range(len(mats))]
+        tmat = rng.choice(mats).add_months(rng.choice([0, 0, 3, -3]))
+        if tmat <= step_in:
+            tmat = mats[-1]
+        cpn = rng.choice([0.01, 0.05, base * 2.5])
+        nl = rng.choice([1e6, 5e6, 1.0])
+        lp = rng.random() < 0.7
+
+        def mk_contracts():
+            return [CDS(step_in, m, q) for m, q in zip(mats, quotes)]
+
+        def mk_trade():
+            return CDS(step_in, tmat, cpn, nl, lp)
+
+        cs = {'first_valuation_dt': [first.d, first.m, first.y], 'second_valuation_dt': [second.d, second.m, second.y],
+              'step_in_dt': [step_in.d, step_in.m, step_in.y], 'maturities': [[m.d, m.m, m.y] for m in mats], 'quotes': quotes,
+              'recovery': rec, 'flat_rate': rate,
+              'trade': {'maturity': [tmat.d, tmat.m, tmat.y], 'coupon': cpn, 'notional': nl, 'long_protect': lp}}
+        lib1, lib2 = DiscountCurveFlat(first, rate), DiscountCurveFlat(second, rate)
+        # ---- reference: everything built fresh for the second date only
+        try:
+            fresh_contracts = mk_contracts()
+            curve_fresh = CDSCurve(second, fresh_contracts, lib2, rec)
+            want_trade = observe(mk_trade(), second, curve_fresh, rec)
+            want_quotes = [observe(c, second, curve_fresh, rec) for c in mk_contracts()]
+            used_contracts = mk_contracts()
+            used_trade = mk_trade()
+            curve_first = CDSCurve(first, used_contracts, lib1, rec)     # first use of the objects
+            observe(used_trade, first, curve_first, rec)
+        except Exception:  # noqa: BLE001  (bootstrap failures are the main component's subject)
+            skipped += 1
+            continue
+        done += 1
+        # ---- the same contract objects bootstrapped again on the second date
+        try:
+            curve_used = CDSCurve(second, used_contracts, lib2, rec)
+        except Exception as e:  # noqa: BLE001
+            ctx.violation(f'CDSCurve built from contract objects already used on another date raised {type(e).__name__}: {e} '
+                          '(fresh identical contracts bootstrap fine)', cs, clause='reuse-bootstrap')
+            continue
+        kf = [float(x) for x in curve_fresh._values]
+        ku = [float(x) for x in curve_used._values]
+        dev = max(abs(a - b) for a, b in zip(kf, ku)) if len(kf) == len(ku) else float('inf')
+        see('reuse.curve-knots', dev)
+        if not (len(kf) == len(ku) and all(same(a, b) for a, b in zip(kf, ku))):
+            ps = [float(c.par_spread(second, curve_used, rec)) for c in mk_contracts()]
+            ctx.violation('a CDSCurve bootstrapped from contract objects that were already used for another valuation date differs '
+                          'from the curve bootstrapped from fresh identical contracts, and does not reprice its quotes',
+                          dict(cs, knots_fresh=kf, knots_reused_objects=ku, par_spreads_of_fresh_contracts_on_reused_curve=ps),
+                          clause='reuse-bootstrap')
+        else:
+            for c, q in zip(mk_contracts(), quotes):
+                ps = float(c.par_spread(second, curve_used, rec))
+                if not (abs(ps - q) <= 2e-4 * q + 1e-7):
+                    ctx.violation('curve rebuilt from re-used contract objects does not reprice its quotes',
+                                  dict(cs, quote=q, par_spread=ps), clause='reuse-bootstrap')
+        # ---- the trade object marked on the first date, then on the second, against a fresh twin (same curve object)
+        try:
+            got_trade = observe(used_trade, second, curve_fresh, rec)
+            got_quotes = [observe(c, second, curve_fresh, rec) for c in used_contracts]
+        except Exception as e:  # noqa: BLE001
+            ctx.violation(f're-used CDS object raised {type(e).__name__}: {e} where a fresh identical contract does not', cs,
+                          clause='reuse-valuation')
+            continue
+        for who, want, got in [('trade', want_trade, got_trade)] + [(f'quote[{i}]', w, g) for i, (w, g) in
+                                                                   enumerate(zip(want_quotes, got_quotes))]:
+            diff = {k: {'fresh': want[k], 'reused_object': got[k]} for k in want if not same(want[k], got[k])}
+            for k in want:
+                if want[k] == want[k] and got[k] == got[k]:
+                    see('reuse.' + k, abs(want[k] - got[k]) / (abs(want[k]) + 1e-300))
+            if diff:
+                ctx.violation(f'{who}: a CDS object already valued on another date gives different results from a freshly '
+                              'constructed identical contract (valuation depends on the object\'s history): '
+                              + ', '.join(sorted(diff)), dict(cs, contract=who, differences=diff), clause='reuse-valuation')
+                break
+        # ---- two different curves on the same date through the same object
+        try:
+            bumped = CDSCurve(second, [CDS(step_in, m, q * 1.5) for m, q in zip(mats, quotes)], lib2, rec)
+            a1 = observe(used_trade, second, bumped, rec)
+            a2 = observe(used_trade, second, curve_fresh, rec)
+            b1 = observe(mk_trade(), second, bumped, rec)
+        except Exception:  # noqa: BLE001
+            continue
+        if any(not same(a1[k], b1[k]) for k in a1) or any(not same(a2[k], want_trade[k]) for k in a2):
+            ctx.violation('a CDS object valued against two curves on the same date differs from fresh identical contracts',
+                          dict(cs, bumped_curve={'reused': a1, 'fresh': b1}, base_curve={'reused': a2, 'fresh': want_trade}),
+                          clause='reuse-valuation')
+    ctx.count('reuse_of_contract_objects', n_cases, done,
+              sample={'first_valuation_dt': [4, 1, 2022], 'second_valuation_dt': [10, 3, 2022], 'step_in_dt': [10, 3, 2022],
+                      'quotes': [0.01, 0.01, 0.01, 0.01]})
+    ctx.cov['components']['reuse_of_contract_objects']['skipped_bootstrap_failed'] = skipped
 
 
 def replay(ctx, path):
@@ -242,6 +384,30 @@ def replay(ctx, path):
     from financepy.products.credit.cds import CDS
     from financepy.products.credit.cds_curve import CDSCurve
     cs = v['case']
+    if str(v.get('clause', '')).startswith('reuse'):
+        first, second, step_in = Date(*cs['first_valuation_dt']), Date(*cs['second_valuation_dt']), Date(*cs['step_in_dt'])
+        mats = [Date(*m) for m in cs['maturities']]
+        rec, rate, tr = cs['recovery'], cs['flat_rate'], cs['trade']
+
+        def mk():
+            return [CDS(step_in, m, q) for m, q in zip(mats, cs['quotes'])]
+        lib1, lib2 = DiscountCurveFlat(first, rate), DiscountCurveFlat(second, rate)
+        used = mk()
+        trade = CDS(step_in, Date(*tr['maturity']), tr['coupon'], tr['notional'], tr['long_protect'])
+        c1 = CDSCurve(first, used, lib1, rec)
+        trade.value(first, c1, rec)
+        fresh_curve = CDSCurve(second, mk(), lib2, rec)
+        used_curve = CDSCurve(second, used, lib2, rec)
+        kf, ku = [float(x) for x in fresh_curve._values], [float(x) for x in used_curve._values]
+        twin = CDS(step_in, Date(*tr['maturity']), tr['coupon'], tr['notional'], tr['long_protect'])
+        a, b = trade.value(second, fresh_curve, rec), twin.value(second, fresh_curve, rec)
+        print('replay: knots fresh ', kf)
+        print('replay: knots reused', ku)
+        print(f"replay: trade clean PV reused object {float(a['clean_pv'])!r} fresh twin {float(b['clean_pv'])!r}")
+        if kf != ku or float(a['clean_pv']) != float(b['clean_pv']) or float(a['dirty_pv']) != float(b['dirty_pv']):
+            print(f'VIOLATION property=C09 replay={path}')
+            return 1
+        return 0
     vd = Date(*cs['value_dt'])
     libor = DiscountCurveFlat(vd, cs['flat_rate'])
     cdss = [CDS(vd, t, s) for t, s in zip(cs['tenors'], cs['spreads'])]
